@@ -436,7 +436,12 @@ func run(c *runner.Ctx) {
 		for i, a := range structs {
 			for j, b := range structs {
 				fi := (i + j) % 5
-				decls := []string{inject.Fillers[fi], inject.StructDecl("First", a), inject.Fillers[(fi+1)%5], inject.StructDecl("Second", b), inject.Fillers[(fi+2)%5]}
+				// (half of the files declare their structs against the alphabet: declaration order is what counts)
+				n1, n2 := "First", "Second"
+				if (i+j)%2 == 1 {
+					n1, n2 = "Zone", "Account"
+				}
+				decls := []string{inject.Fillers[fi], inject.StructDecl(n1, a), inject.Fillers[(fi+1)%5], inject.StructDecl(n2, b), inject.Fillers[(fi+2)%5]}
 				emit(decls, ann(a...)+ann(b...), fmt.Sprintf("struct %d + struct %d with fillers", i, j))
 			}
 		}
